@@ -27,6 +27,8 @@ type Ctl struct {
 	// Gate, when set, is called before every transaction (or plain Get/Set) with the thread id; it blocks
 	// until the scheduler lets that thread take its next step.
 	Gate func(thread int, what string)
+	// GateBlobs: blob operations (Grow, Set, Truncate, View, Slice) of records are scheduling points too.
+	GateBlobs bool
 }
 
 func (c *Ctl) hit(what string) error {
@@ -54,8 +56,9 @@ func (c *Ctl) Count() int64 {
 // record wraps a FileRecord so that lazily evaluated parts are store calls too.
 type record struct {
 	keyvalue.FileRecord
-	c    *Ctl
-	path string
+	c      *Ctl
+	path   string
+	thread int
 }
 
 func (r record) Data() (blob.Blob, error) {
@@ -65,7 +68,68 @@ func (r record) Data() (blob.Blob, error) {
 	if err := r.c.hit("data " + r.path); err != nil {
 		return nil, err
 	}
-	return r.FileRecord.Data()
+	b, err := r.FileRecord.Data()
+	if err != nil || b == nil || r.c.Gate == nil || !r.c.GateBlobs {
+		return b, err
+	}
+	return &GBlob{In: Unwrap(b), C: r.c, Thread: r.thread}, nil
+}
+
+// GBlob is a blob whose mutating and aliasing operations are scheduling points.
+type GBlob struct {
+	In     blob.Blob
+	C      *Ctl
+	Thread int
+}
+
+// Unwrap returns the blob behind any number of gate wrappers.
+func Unwrap(b blob.Blob) blob.Blob {
+	for {
+		g, ok := b.(*GBlob)
+		if !ok {
+			return b
+		}
+		b = g.In
+	}
+}
+
+func (g *GBlob) gate(what string) {
+	if g.C.Gate != nil {
+		g.C.Gate(g.Thread, what)
+	}
+}
+func (g *GBlob) Bytes() []byte { return g.In.Bytes() }
+func (g *GBlob) Len() int      { return g.In.Len() }
+func (g *GBlob) View(start, end int64) (blob.Blob, error) {
+	g.gate("blob.view")
+	return blob.View(g.In, start, end)
+}
+func (g *GBlob) Slice(start, end int64) (blob.Blob, error) {
+	g.gate("blob.slice")
+	return blob.Slice(g.In, start, end)
+}
+func (g *GBlob) Set(src blob.Blob, off int64) (int, error) {
+	g.gate("blob.set")
+	return blob.Set(g.In, Unwrap(src), off)
+}
+func (g *GBlob) Grow(n int64) error {
+	g.gate("blob.grow")
+	return blob.Grow(g.In, n)
+}
+func (g *GBlob) Truncate(n int64) error {
+	g.gate("blob.truncate")
+	return blob.Truncate(g.In, n)
+}
+
+// plainSrc hands a record to the inner store with its blob unwrapped (gate wrappers never get stored).
+type plainSrc struct{ keyvalue.FileRecord }
+
+func (p plainSrc) Data() (blob.Blob, error) {
+	b, err := p.FileRecord.Data()
+	if b != nil {
+		b = Unwrap(b)
+	}
+	return b, err
 }
 
 func (r record) ReadDirNames() ([]string, error) {
@@ -96,7 +160,7 @@ func (s *Plain) Get(ctx context.Context, path string) (keyvalue.FileRecord, erro
 	if err != nil || rec == nil {
 		return rec, err
 	}
-	return record{rec, s.C, path}, nil
+	return record{rec, s.C, path, s.Thread}, nil
 }
 
 func (s *Plain) Set(ctx context.Context, path string, src keyvalue.FileRecord) error {
@@ -105,6 +169,9 @@ func (s *Plain) Set(ctx context.Context, path string, src keyvalue.FileRecord) e
 	}
 	if err := s.C.hit("set " + path); err != nil {
 		return err
+	}
+	if src != nil {
+		src = plainSrc{src}
 	}
 	return s.In.Set(ctx, path, src)
 }
@@ -135,12 +202,13 @@ func (s *Txn) Transaction(o keyvalue.TransactionOptions) (keyvalue.Transaction, 
 	if err != nil {
 		return nil, err
 	}
-	return &txn{in: t, c: s.C}, nil
+	return &txn{in: t, c: s.C, thread: s.Thread}, nil
 }
 
 type txn struct {
 	in     keyvalue.Transaction
 	c      *Ctl
+	thread int
 	n      int
 	failed map[int]error // operations (by position) the store failed
 }
@@ -173,6 +241,12 @@ func (t *txn) SetHandler(path string, src keyvalue.FileRecord, contents blob.Blo
 		return t.failOp(path, err)
 	}
 	t.n++
+	if src != nil {
+		src = plainSrc{src}
+	}
+	if contents != nil {
+		contents = Unwrap(contents)
+	}
 	if h == nil {
 		return t.in.Set(path, src, contents)
 	}
@@ -187,7 +261,7 @@ func (t *txn) Commit(ctx context.Context) ([]keyvalue.OpResult, error) {
 		}
 		if res[i].Record != nil {
 			if _, ok := res[i].Record.(record); !ok {
-				res[i].Record = record{res[i].Record, t.c, "?"}
+				res[i].Record = record{res[i].Record, t.c, "?", t.thread}
 			}
 		}
 	}
